@@ -1,6 +1,10 @@
 package credentials
 
 import (
+	"encoding/json"
+	"time"
+
+	"github.com/jcmturner/gokrb5/v8/keytab"
 	"github.com/jcmturner/gokrb5/v8/types"
 	"github.com/jcmturner/gokrb5/v8/zzverif"
 )
@@ -256,4 +260,64 @@ func vhNameEq(a, b types.PrincipalName) bool {
 		}
 	}
 	return true
+}
+
+
+// ---- C20: credentials never show their password or keys -------------------------------------------------------
+
+// VH_C20_Credentials: credentials holding a secret password and a keytab with a secret key: the JSON dump,
+// the gob encoding kept in HTTP sessions (checked where it is encoded), and the JSON of a key.
+func VH_C20_Credentials() {
+	pw := string(zzverif.Secret(8))
+	key := zzverif.Secret(16)
+	kt := keytab.New()
+	kt.VHAddEntry("R", []string{"u"}, 18, 1, key, time.Unix(1500000000, 0))
+	c := New("u", "R").WithPassword(pw).WithKeytab(kt)
+	c.SetAuthenticated(true)
+	c.SetDisplayName("user")
+	j, err := c.JSON()
+	zzverif.Public("credentials-json", j, err)
+	b, err := c.Marshal()
+	zzverif.Public("credentials-gob", b, err)
+	kb, err := json.Marshal(types.EncryptionKey{KeyType: 18, KeyValue: key})
+	zzverif.Public("encryptionkey-json", kb, err)
+	kb, err = json.Marshal(kt)
+	zzverif.Public("keytab-json", kb, err)
+	zzverif.Reach("dumped")
+}
+
+
+// VH_C20_CCacheParseErrors: a credential cache file (version 4, written by the independent writer) holding
+// a secret session key, truncated at every offset: whatever the parser returns does not show the key.
+// (That the parser panics on some truncations is C04's finding, not this harness's subject.)
+func VH_C20_CCacheParseErrors() {
+	key := zzverif.Secret(16)
+	w := &vhW{ver: zzverif.Param("version")}
+	w.b = append(w.b, 5, byte(w.ver))
+	if w.ver == 4 {
+		w.u16(0)
+	}
+	p := vhPrinc{nameType: 1, realm: "R", comps: []string{"u"}}
+	sp := vhPrinc{nameType: 2, realm: "R", comps: []string{"krbtgt", "R"}}
+	w.princ(p)
+	w.princ(p)
+	w.princ(sp)
+	w.u16(18)
+	if w.ver == 3 {
+		w.u16(18)
+	}
+	w.data(key)
+	for i := 0; i < 4; i++ {
+		w.u32(1500000000)
+	}
+	w.b = append(w.b, 0, 0, 0, 0, 0)
+	w.u32(0)
+	w.u32(0)
+	w.data([]byte{0x61, 0x03})
+	w.data(nil)
+	cut := zzverif.Choose(0, len(w.b))
+	c := new(CCache)
+	err := c.Unmarshal(w.b[:cut])
+	zzverif.Reach("returned")
+	zzverif.Public("ccache-parse-error", err)
 }
